@@ -13,6 +13,22 @@ components and configuration can reach a context; the canonical digest of the st
 EVERY step, the results after every step, the final results, the written result files and every draw request must be
 identical; (iii) configuration-derived clauses – step count and clock values, population size after every step
 and the draws themselves are recomputed from the case's configuration, not read back.
+
+WHOLE stream (case kind "whole"; cases `{"kind": "whole", "cfg": <a WHOLE configuration>, "histories": [...]}`): the real
+engine runs the exact probe components of `vcheck/wholekit.py` in FRESH processes (`vcheck/whole_worker.py`: own
+PYTHONHASHSEED, global numpy / random generators seeded and consumed before, between and inside the steps, 0-3 earlier
+simulations with DIFFERENT WHOLE configurations - sibling scenarios with the same seed and stream names, unrelated ones;
+finished, left unfinished, or stepping in the middle of this run's steps -, driven by a `step()` loop, `run()`,
+`run(backup_path, backup_freq)`, or an InteractiveContext through `step()` / `take_steps(1)` / `run()`), and EVERY history's
+observation - the state table, the clock, the index-map positions, the results and the pipeline values after the
+initial population and after every step - is compared CELL BY CELL with what ONE Lean function computes from the
+configuration alone (`Model/Whole.lean`, `Model/WholeDt.lean`; lines go to `Driver/Whole.lean` via `driver_of`; the
+comparison is `Whole.compare`, unchanged). So "the real simulation under every process history = a function of the
+configuration" is checked against the model, not only against other runs; the oracle is the property itself: all
+histories identical stage by stage (`whole-history-differs`). The theorems that make the model side of this statement
+are audited with this check (`lean_modules`): `Viv.Props.Whole` (`runWhole_eq_iter`: run() = iterated step;
+`resume_at_any_boundary`; `initial_keys_independent_of_births`; `crn_sex_pair`; `run_results_closed_form`: everything is a
+function of `Config`) and `Viv.Props.WholeDt` (`runD_eq_iter`, `resumeD`) for the DateTimeClock configurations.
 """
 from __future__ import annotations
 
@@ -23,6 +39,7 @@ import shutil
 import tempfile
 
 from .. import enginekit
+from .. import whole_worker as ww
 from ..runner import Prop
 
 MAX_U32 = 4294967295
@@ -35,14 +52,17 @@ def _get_hash(key: str) -> int:
 
 class C01(Prop):
     id = "C01"
-    lean_modules = ["VivModel.Props.C01"]
-    build_targets = ["VivModel.Model.Engine", "VivModel.Model.Events", "VivModel.Model.Proto"]
+    lean_modules = ["VivModel.Props.C01", "VivModel.Props.Whole", "VivModel.Props.WholeDt"]
+    build_targets = ["VivModel.Model.Engine", "VivModel.Model.Events", "VivModel.Model.Proto", "VivModel.Model.Whole", "VivModel.Model.WholeDt"]
     driver = "C01"
+    extra_drivers = ["Whole"]        # the cases of kind "whole" are interpreted by the composed model's driver
+    n_spec_quick = 14                # generated programs of the engine stream (unchanged) ...
+    n_spec_thorough = 150
     technique = "Lean 4 proof (induction over the run loop / permutations) of the model-level statements + cross-process differential over process histories"
     partial = ("that arbitrary user components, pandas and the interpreter introduce no other entropy cannot be a theorem; "
                "it is explored by running each generated program under 6 process histories and comparing digests after every step")
-    n_quick = 14
-    n_thorough = 150
+    n_quick = 14 + 5                 # ... followed by the WHOLE stream's configurations
+    n_thorough = 150 + 40
     workers = 3
     case_timeout = 900
     rule = ("each case = one generated program (7 program shapes: hash / api / crn / services / results / tiny / mixed; CRN 0-3 keys of "
@@ -50,7 +70,8 @@ class C01(Prop):
             "machine with triggered and transient states, per-simulant clocks, every kind of observation and stratification, tables "
             "from configuration data sources and an artifact, get_seed, sample_from_distribution; both clocks) run under 6 process "
             "histories (hash seed, global RNG noise, earlier simulations incl. interleaved ones, 12 stepping APIs, 9 configuration "
-            "routes, logging); evaluations counts programs; non-trivial = at least 2 steps, non-empty population, digests change between steps")
+            "routes, logging); evaluations counts programs; non-trivial = at least 2 steps, non-empty population, digests change between steps; "
+            "WHOLE stream: one WHOLE configuration run under 5 process histories, every one compared cell by cell with the composed Lean model")
 
     # ------------------------------------------------------------------ cases
     def boundary(self):
@@ -83,14 +104,47 @@ class C01(Prop):
                                                  (5, [], "run", "tree")])]
         return [{"spec": full, "histories": enginekit.gen_histories(rng, full)}, {"spec": vary, "histories": enginekit.gen_histories(rng, vary)},
                 {"spec": shrink, "histories": enginekit.gen_histories(rng, shrink)}, {"spec": dflt, "histories": hist},
-                {"spec": rich, "histories": hist2}]
+                {"spec": rich, "histories": hist2}] + self._whole_boundary()
+
+    def _whole_boundary(self):
+        """WHOLE stream, hand-written: (i) key columns, a block of 10 * population positions smaller than it would be for the
+        sibling scenario that ran before in the same process, births that collide with registered simulants; every drive;
+        (ii) everything together (age, interpolated table + pipeline with three modifiers, observer) after an unfinished
+        sibling and with an interleaved neighbour"""
+        from . import whole
+        rng = random.Random(2)
+        tight = whole.variant(mapSize=23, pop=6, births=[[0, 1, 0, 0], [1, 0, 0, 2], [0, 0, 1, 0]], keyCols=[1, 0], seed=11)
+        sib = whole.variant(mapSize=61, pop=4, births=[[2, 0, 0, 0], [0, 0, 1, 0]], keyCols=[1, 0], seed=11, order=[2, 1, 0])
+        h1 = [dict(ww.BASELINE)] + [
+            {"hashseed": hs, "noise": 3 * k + 1, "mode": m, "probe": True, "prior": pr}
+            for k, (hs, m, pr) in enumerate([(1, "step", [{"cfg": sib, "style": "finished", "mode": "step"}]),
+                                             (2, "run", [{"cfg": sib, "style": "unfinished", "mode": "step"}]),
+                                             ("random", "interactive_step", [{"cfg": sib, "style": "interleaved", "mode": "step"}]),
+                                             (3, "run_backup", []), (5, "interactive_run", [{"cfg": sib, "style": "finished", "mode": "run"}]),
+                                             (7, "interactive_take", [])])]
+        full = whole.ext_boundary()[-1]
+        h2 = [dict(ww.BASELINE),
+              {"hashseed": 1, "noise": 6, "mode": "step", "probe": True,
+               "prior": [{"cfg": ww.sibling(rng, full), "style": "unfinished", "mode": "step"}, {"cfg": whole.variant(), "style": "interleaved", "mode": "step"}]},
+              {"hashseed": "random", "noise": 9, "mode": "interactive_run", "probe": True, "prior": [{"cfg": ww.sibling(rng, full), "style": "finished", "mode": "run"}]},
+              {"hashseed": 4, "noise": 2, "mode": "run", "probe": False, "prior": []}]
+        return [{"kind": "whole", "cfg": tight, "histories": h1}, {"kind": "whole", "cfg": full, "histories": h2}]
 
     def generate(self, rng: random.Random, i: int, tier: str):
+        # the engine stream first (its random stream is what it was before the WHOLE stream existed), then the WHOLE
+        # stream; in a search for a failing input (i >= 10000) every fourth case is a WHOLE case
+        n_spec = self.n_spec_thorough if tier == "thorough" else self.n_spec_quick
+        if (i >= n_spec and i < 10_000) or (i >= 10_000 and i % 4 == 3):
+            cfg = ww.gen_cfg(rng, tier, flavour=i - n_spec + 1 if i < 10_000 else i // 4)
+            return {"kind": "whole", "cfg": cfg, "histories": ww.gen_histories(rng, cfg, tier)}
         mode = enginekit.SPEC_MODES[i % len(enginekit.SPEC_MODES)]
         spec = enginekit.gen_spec(rng, small=(tier == "quick"), mode=mode)
         return {"spec": spec, "histories": enginekit.gen_histories(rng, spec)}
 
     def shrink(self, case):
+        if case.get("kind") == "whole":
+            yield from self._whole_shrink(case)
+            return
         s = case["spec"]
         if len(case["histories"]) > 2:
             for i in range(1, len(case["histories"])):
@@ -109,6 +163,8 @@ class C01(Prop):
 
     # ------------------------------------------------------------------ implementation side
     def run_impl(self, case):
+        if case.get("kind") == "whole":
+            return self._whole_run(case)
         spec = dict(case["spec"])
         d = tempfile.mkdtemp(prefix="vc01-")
         try:
@@ -198,6 +254,8 @@ class C01(Prop):
         raise ValueError(m)
 
     def model_lines(self, case, obs):
+        if case.get("kind") == "whole":
+            return self._whole_lines(case, obs)
         spec = case["spec"]
         start, step, stop = self._ticks(spec)
         lines = []
@@ -221,6 +279,8 @@ class C01(Prop):
         return lines
 
     def compare(self, case, obs, replies):
+        if case.get("kind") == "whole":
+            return self._whole_compare(case, obs, replies)
         out, k = [], 0
         for h, r in zip(case["histories"], obs["runs"]):
             if r["error"] or not r["events"]:
@@ -246,6 +306,8 @@ class C01(Prop):
 
     # ------------------------------------------------------------------ the property on the observed behaviour
     def oracle(self, case, obs):
+        if case.get("kind") == "whole":
+            return self._whole_oracle(case, obs)
         from .. import components
         f = []
         spec = case["spec"]
@@ -337,12 +399,17 @@ class C01(Prop):
                     and "in memoize" in (r.get("trace") or "") and "pickle.py" in (r.get("trace") or ""))
 
     def nontrivial(self, case, obs):
+        if case.get("kind") == "whole":
+            b = obs["runs"][0]
+            return not b.get("worker_error") and len(b.get("steps") or []) >= 1 and bool(b["steps"][-1])
         d = obs["runs"][0]["digests"] or []
         return case["spec"]["pop"] > 0 and case["spec"]["n_steps"] >= 2 and len({x.split(":")[1] for x in d}) >= 3
 
     def tags(self, case, obs):
+        if case.get("kind") == "whole":
+            return self._whole_tags(case, obs)
         s = case["spec"]
-        t = [s["clock"], f"crn{s['crn_keys']}", "pop0" if s["pop"] == 0 else "pop1" if s["pop"] == 1 else "pop+"]
+        t = ["kind:engine", s["clock"], f"crn{s['crn_keys']}", "pop0" if s["pop"] == 0 else "pop1" if s["pop"] == 1 else "pop+"]
         for k in ("mort", "disease", "stepmod", "obs", "extras", "pop_extra", "newborn", "perm"):
             t.append(k if s.get(k) else "no-" + k)
         o, x, d = s.get("obs") or {}, s.get("extras") or {}, s.get("disease") or {}
@@ -363,9 +430,111 @@ class C01(Prop):
         return t
 
     def sample_view(self, case, obs):
+        if case.get("kind") == "whole":
+            from . import whole
+            b = obs["runs"][0]
+            return {"kind": "whole", "cfg": case["cfg"],
+                    "histories": [dict(h, prior=[f"{p['style']}:{p['mode']}:seed{p['cfg']['seed']}:map{p['cfg']['mapSize']}" for p in h["prior"]]) for h in case["histories"]],
+                    "baseline": {"init": whole.show_table(b.get("init"))[:300], "last": whole.show_table((b.get("steps") or [None])[-1])[:400],
+                                 "error": b.get("error"), "clocks": b.get("clocks")}}
         return {"spec": case["spec"], "histories": case["histories"],
                 "baseline_digests": (obs["runs"][0]["digests"] or [])[:6], "results": obs["runs"][0]["results"],
                 "draw_requests": obs["runs"][0]["n_draws"], "draws_recomputed": (obs.get("draw_check") or {}).get("checked")}
+
+    # ================================================================== WHOLE stream (case kind "whole")
+    def driver_of(self, case):
+        return "Whole" if case.get("kind") == "whole" else self.driver
+
+    def _whole_run(self, case):
+        res = ww.run_jobs([ww.job_of(case["cfg"], h) for h in case["histories"]], parallel=6)
+        for r in res:
+            r.pop("first_hashes", None)
+            r["trace"] = (r.get("trace") or "")[-600:]
+        return {"kind": "whole", "runs": res}
+
+    @staticmethod
+    def _whole_anchor(obs):
+        """the run whose number of stages decides how many `step` lines the model gets (the first step-by-step run)"""
+        for r in obs["runs"]:
+            if not r.get("worker_error") and r.get("mode") in ww.STEP_LIKE:
+                return r
+        return None
+
+    def _whole_lines(self, case, obs):
+        from . import whole
+        a = self._whole_anchor(obs)
+        if a is None:
+            return []
+        return whole.PROP.model_lines(case["cfg"], a)
+
+    def _whole_compare(self, case, obs, replies):
+        """`Whole.compare` (unchanged) applied to EVERY history: all must equal the one model run"""
+        from . import whole
+        out = []
+        for k, (h, r) in enumerate(zip(case["histories"], obs["runs"])):
+            if r.get("worker_error"):
+                continue
+            try:
+                d = whole.PROP.compare(case["cfg"], ww.whole_obs_of_run(r), replies)
+            except IndexError:
+                d = [f"more stages than the model was asked for ({len(r.get('steps') or [])} steps)"]
+            out += [f"history #{k} ({h['mode']}, hash seed {h['hashseed']}, {len(h['prior'])} earlier simulations): {x}" for x in d]
+        return out
+
+    def _whole_oracle(self, case, obs):
+        """the property itself: the same configuration gives the same simulation, stage by stage, under every process history"""
+        f = []
+        runs = obs["runs"]
+        for h, r in zip(case["histories"], runs):
+            if r.get("worker_error"):
+                f.append({"sig": "whole-run-raised", "msg": f"history {self._whole_hist(h)}: {r['worker_error']} {r.get('trace', '')}"})
+            elif r.get("error") and str(r["error"]["class"]).startswith("other"):
+                f.append({"sig": "whole-unexpected-exception", "msg": f"history {self._whole_hist(h)}: {r['error']}"})
+        if f:
+            return f
+        base = runs[0]
+        for h, r in list(zip(case["histories"], runs))[1:]:
+            d = ww.diff_runs(base, r)
+            if d:
+                f.append({"sig": "whole-history-differs", "msg": f"history {self._whole_hist(h)} vs the baseline (fresh process, hash seed 0): {d}"})
+        return f
+
+    @staticmethod
+    def _whole_hist(h):
+        return {"hashseed": h["hashseed"], "noise": h["noise"], "mode": h["mode"], "probe": h.get("probe", True),
+                "prior": [f"{p['style']}:{p['mode']}:seed{p['cfg']['seed']}:map{p['cfg']['mapSize']}:pop{p['cfg']['pop']}" for p in h["prior"]]}
+
+    def _whole_tags(self, case, obs):
+        from . import whole
+        cfg = case["cfg"]
+        t = ["kind:whole"]
+        for h in case["histories"]:
+            t += ["whole:mode:" + h["mode"], f"whole:priors{len(h['prior'])}", "whole:probe" if h.get("probe", True) else "whole:no-probe"]
+            t += [f"whole:prior:{p['style']}" for p in h["prior"]]
+            t += ["whole:prior:same-seed-other-map" for p in h["prior"] if p["cfg"]["seed"] == cfg["seed"] and p["cfg"]["mapSize"] != cfg["mapSize"]]
+        b = obs["runs"][0]
+        if not b.get("worker_error"):
+            keep = ("outcome:", "hash-collision:", "block=", "clock:", "keycols:", "ext:", "pipe:called", "obs:results-nonzero", "births:", "untracked:",
+                    "machine-moved", "dt:global-step-grew")
+            t += ["whole:" + x for x in whole.PROP.tags(cfg, b) if x.startswith(keep)]
+            t.append(f"whole:stages:{len(b.get('steps') or []) + 1}")
+        return t
+
+    def _whole_shrink(self, case):
+        from . import whole
+        hs = case["histories"]
+        if len(hs) > 2:
+            for i in range(1, len(hs)):
+                yield dict(case, histories=[hs[0], hs[i]])
+        for i, h in enumerate(hs):
+            if i and h["prior"]:
+                for j in range(len(h["prior"])):
+                    yield dict(case, histories=hs[:i] + [dict(h, prior=h["prior"][:j] + h["prior"][j + 1:])] + hs[i + 1:])
+            if i and h.get("probe", True):
+                yield dict(case, histories=hs[:i] + [dict(h, probe=False)] + hs[i + 1:])
+        for c in whole.PROP.shrink(case["cfg"]):
+            if whole.crn_safe(c):
+                yield dict(case, cfg=c)
 
 
 PROP = C01()
